@@ -319,7 +319,7 @@ def hist_build(case):
 
 def hist_fn(case):
     r = core.R(case)
-    rthist.run_history(r, case['hist'], lambda: hist_build(case), 'transmission/' + case['path'], as_numpy=bool(case.get('np')))
+    rthist.run_history(r, case['hist'], lambda: hist_build(case), 'transmission/' + case['path'], as_numpy=bool(case.get('np')), entry=case.get('entry', 'model'))
     return r
 
 
@@ -352,6 +352,8 @@ def explore(ctx):
                       history_depth_reduced_alphabet=3 if ctx.tier == 'quick' else 4, histories=len(hcases))
     # every single update once more with the value handed over as a numpy float64 scalar
     hcases += [dict(c_, np=True) for c_ in hcases if len(c_['hist']) == 1]
+    # ... and with the first evaluation after the update going through model_full_contrib / model_contrib
+    hcases += [dict(c_, entry=e_) for c_ in hcases if len(c_['hist']) == 1 and not c_.get('np') for e_ in ('full', 'contrib')]
     ctx.run_cases('hist_fn', hcases, phase='histories')
     inv = [{'N': n, 'ntop': t, 'path': pth, 'second': sec} for n in (3, 4, 5, 7) for t in (1, 2) if t < n
            for pth in ('old', 'new') for sec in ('flat', 'lee', 'ray', 'cia')]
